@@ -66,3 +66,6 @@ Lemma nmax_R a b : @nmax R _ a b = Rmax a b.
 Proof. unfold nmax, Rmax; numR; unfold Rleb; destruct (Rle_dec a b); reflexivity. Qed.
 Lemma nmin_R a b : @nmin R _ a b = Rmin a b.
 Proof. unfold nmin, Rmin; numR; unfold Rleb; destruct (Rle_dec a b); reflexivity. Qed.
+
+(* rational constants of the source embedded in any carrier *)
+Definition of_Q {T} `{Num T} (c : Q) : T := ndiv (of_Z (Qnum c)) (of_Z (Zpos (Qden c))).
